@@ -30,11 +30,11 @@ pub fn gen_meta(rng: &mut Rng) -> Vec<u8> {
             0 => "name".to_string(),
             1 => "vector_layers".to_string(),
             2 => format!("k{}", rng.below(100)),
-            3 => "ü\"\\\n".to_string(),
+            3 => ["ü\"\\\n", "\u{1f600}", "k\u{20000}\u{10ffff}", "\u{7f}\u{80}\u{7ff}\u{800}\u{ffff}\u{10000}"][rng.below(4) as usize].to_string(),
             4 => String::new(),
             _ => format!("attribution{i}"),
         };
-        let v = match rng.below(8) {
+        let v = match rng.below(9) {
             0 => serde_json::Value::Null,
             1 => serde_json::Value::Bool(rng.chance(1, 2)),
             2 => serde_json::json!(rng.next() as i64),
@@ -42,6 +42,7 @@ pub fn gen_meta(rng: &mut Rng) -> Vec<u8> {
             4 => serde_json::json!([1, "a", null, {"z": 1, "a": [ ]}]),
             5 => serde_json::json!({"b": {"c": [true, false]}, "a": "x"}),
             6 => serde_json::json!(0.5),
+            7 => serde_json::json!(format!("\u{1f30d} {} \u{2a6df}\u{e9}\u{0}\u{1f}", rng.below(1000))),
             _ => serde_json::json!(format!("s{}", rng.below(1000))),
         };
         m.insert(k, v);
@@ -51,6 +52,13 @@ pub fn gen_meta(rng: &mut Rng) -> Vec<u8> {
 
 /// degrees: multiples of 1e-7, half-step ties and their neighbours, ordinary values, extremes
 pub fn gen_coord(rng: &mut Rng) -> f64 {
+    if rng.below(14) == 0 {
+        // half-step ties next to zero and their neighbours a few ulps away (products of about 0.5, 1.5, 2.5)
+        let i = rng.below(7) as i64 - 3;
+        let t = (i as f64 + 0.5) / 1e7;
+        let b = t.to_bits();
+        return f64::from_bits(b.wrapping_add(rng.below(9)).wrapping_sub(4));
+    }
     if rng.below(12) == 0 {
         // around and below the resolution of 1e-7 degrees
         let v = [4.9e-8, 5e-8, 5.1e-8, 6e-8, 9.9e-8, 1e-7, 1.4e-7, 1.5e-7, 1.6e-7, 1e-9, 1e-300][rng.below(11) as usize];
